@@ -8,6 +8,7 @@
   Core Lean only (used by the driver MW.Drv.Api and by MW.Lemmas.ApiBackedLedger).
 -/
 import MW.Model.Ledger
+import MW.Model.TxLoc
 namespace MW.Model.ApiLedger
 open MW MW.Model.Ledger
 
@@ -17,17 +18,54 @@ def creditBlock (s : Store) (cur : Wid) (tx : TxId) (idx : Nat) : Option BlockMe
   | some blk => some blk
   | none => (s.credits.find? (fun e => e.1.tx = tx && e.1.idx = idx)).map (·.1.blk)
 
-/-- TxStore.ExistsTx: the transaction and the block meta, `none` = ErrNotFound / a read error -/
-def existsTx (s : Store) (node : Node) (cur : Wid) (tx : TxId) (idx : Nat) : Option (Tx × BlockMeta) :=
+/-- TxStore.ExistsTx: the transaction and the block meta, `none` = ErrNotFound / a read error.  `len` = encoded length of a
+    transaction: FetchTxByLoc reads by BYTE offset inside whatever block is at the recorded height now (`Node.txAtLoc`,
+    MW.Model.TxLoc) - a wallet left on a replaced block still finds a transaction the replacing block carries at the same
+    offset -/
+def existsTx (len : Tx → Nat) (s : Store) (node : Node) (cur : Wid) (tx : TxId) (idx : Nat) : Option (Tx × BlockMeta) :=
   match creditBlock s cur tx idx with
   | none => none
   | some blk =>
     match AMap.get s.txrecs (tx, blk) with            -- existsTxRecord + readTxRecordLoc
     | none => none
     | some loc =>
-      match node.txByLoc blk.height loc with          -- chainFetcher.FetchTxByLoc
+      match node.txAtLoc len blk.height loc with      -- chainFetcher.FetchTxByLoc
       | some t => if t.id = tx then some (t, blk) else none     -- "tx hash mismatch" → ErrNotFound
       | none => none
+
+/-- the record-level reading (location = block id + index; `none` as soon as the block at that height is another one) -/
+def existsTxRec (s : Store) (node : Node) (cur : Wid) (tx : TxId) (idx : Nat) : Option (Tx × BlockMeta) :=
+  match creditBlock s cur tx idx with
+  | none => none
+  | some blk =>
+    match AMap.get s.txrecs (tx, blk) with
+    | none => none
+    | some loc =>
+      match node.txByLoc blk.height loc with
+      | some t => if t.id = tx then some (t, blk) else none
+      | none => none
+
+/-- whatever the record-level reading finds, the byte-level reading finds -/
+theorem existsTxRec_existsTx (len : Tx → Nat) (s : Store) (node : Node) (cur : Wid) (tx : TxId) (idx : Nat)
+    (r : Tx × BlockMeta) (h : existsTxRec s node cur tx idx = some r) : existsTx len s node cur tx idx = some r := by
+  unfold existsTxRec at h
+  unfold existsTx
+  cases hb : creditBlock s cur tx idx with
+  | none => rw [hb] at h; cases h
+  | some blk =>
+    rw [hb] at h
+    simp only at h ⊢
+    cases hr : AMap.get s.txrecs (tx, blk) with
+    | none => rw [hr] at h; cases h
+    | some loc =>
+      rw [hr] at h
+      simp only at h ⊢
+      cases hf : node.txByLoc blk.height loc with
+      | none => rw [hf] at h; cases h
+      | some t =>
+        rw [hf] at h
+        rw [MW.Model.TxLoc.txByLoc_txAtLoc len node blk.height loc t hf]
+        exact h
 
 /-- what `existsMsgTx` reads of the result: [prevTx ≠ nil, block ≠ nil, error id, error is ErrNotFound,
     len(prevTx.TxOut)]; `notFound` = the id the skeletons use for txmgr.ErrNotFound -/
